@@ -386,26 +386,34 @@ _CS = {}
 
 def cursor_verdict(ctx, w, S, R, rule="V11"):
     """Semantic form of V8-V10: the pure cursor commands evaluated on a 5x5 terminal (hinterp.cursor_semantics)."""
-    k = (id(w), id(ctx), rule)
-    if k in _CS:
-        return _CS[k]
+    full = getattr(ctx, "tier", "") == "thorough"
+    k = (id(w), full)
     from rules import hinterp
     ctx.rule(rule, "the pure cursor commands (CUU CUD CUF CUB CNL CPL VPR CHA VPA CUP BS CR) evaluated on a 5x5 terminal for margin pairs, origin mode on/off, every start position incl. wrap-pending "
                    "and parameters 0/1/small/beyond the edge end exactly where the statement prescribes, clear wrap-pending, never touch the buffer and change nothing else")
-    try:
-        ok, info = hinterp.cursor_semantics(w, S, R, full=(getattr(ctx, "tier", "") == "thorough"))
-    except Exception as ex:
-        ctx.note("semantic form of the cursor rules not applicable: %r" % (ex,))
-        _CS[k] = None
+    if k not in _CS:
+        try:
+            _CS[k] = hinterp.cursor_semantics(w, S, R, full=full)
+        except Exception as ex:
+            _CS[k] = ("n/a", repr(ex))
+    ok, info = _CS[k]
+    done = getattr(ctx, "_v11_done", None)
+    if ok == "n/a":
+        if not done:
+            ctx.note("semantic form of the cursor rules not applicable: %s" % info)
         return None
-    if ok:
-        ctx.ok(rule, "all", {"cases": info})
-        ctx.rule_counts[rule] = info
-    else:
-        hs = w.handler("Cuu")
-        ctx.violation(rule, "cursor", str(info), loc=w.fn_loc(hs[0]) if hs else None)
-    _CS[k] = bool(ok)
-    return _CS[k]
+    if not done:
+        try:
+            object.__setattr__(ctx, "_v11_done", True)
+        except Exception:
+            pass
+        if ok:
+            ctx.ok(rule, "all", {"cases": info})
+            ctx.rule_counts[rule] = info
+        else:
+            hs = w.handler("Cuu")
+            ctx.violation(rule, "cursor", str(info), loc=w.fn_loc(hs[0]) if hs else None)
+    return bool(ok)
 
 
 def clamp_rules(ctx, w, S, R):
